@@ -102,7 +102,22 @@ def tables(repo):
         raise KeyError("const_to_qtype candidate list")
     allq = dict(t["qintTypes"])
     t["constQintCandidates"] = [(n, allq[n]) for n in cands]
-    # comparators of t_expression
+    # comparators of t_expression (C01): the list `comparators = [(ast.Eq, "eq"), ...]`
+    texp = _parse(repo, "qlasskit/ast2logic/t_expression.py")
+    comps = None
+    for node in ast.walk(texp):
+        if (isinstance(node, ast.Assign) and len(node.targets) == 1 and isinstance(node.targets[0], ast.Name)
+                and node.targets[0].id == "comparators" and isinstance(node.value, ast.List)):
+            comps = []
+            for e in node.value.elts:
+                if (isinstance(e, ast.Tuple) and len(e.elts) == 2 and isinstance(e.elts[0], ast.Attribute)
+                        and isinstance(e.elts[1], ast.Constant)):
+                    comps.append((e.elts[0].attr, e.elts[1].value))
+                else:
+                    raise KeyError("t_expression.py: comparators entry")
+    if comps is None:
+        raise KeyError("t_expression.py: comparators")
+    t["comparators"] = comps
     # C11: ZB_GATES of the decompiler and the class hierarchy of gates.py
     dec = _parse(repo, "qlasskit/decompiler/decompiler.py")
     t["zbGates"] = _names(_list_assign(dec, "ZB_GATES"))
@@ -223,6 +238,10 @@ def render(t):
         "def constQintCandidates : List (String × Nat) := "
         + lean_list(f"({lean_str(n)}, {w})" for n, w in t["constQintCandidates"])
     )
+    L.append("")
+    L.append("/-- comparator table of `translate_expression`: ast class -> method name, in source order -/")
+    L.append("def comparators : List (String × String) := "
+             + lean_list(f"({lean_str(a)}, {lean_str(b)})" for a, b in t["comparators"]))
     L.append("")
     L.append("/-- `ZB_GATES` of decompiler.py: class names in source order -/")
     L.append("def zbGates : List String := " + lean_list(lean_str(n) for n in t["zbGates"]))
